@@ -210,6 +210,8 @@ def pairs_for(ctx, base, label, rng):
             ctx.dist['perturbation-not-applicable'] += 1
             continue
         compare_pair(ctx, base, b, label, pname, want0, wanttol)
+        # the verdict may not depend on which side carries the change
+        compare_pair(ctx, b, base, label, pname + ':swapped', want0, wanttol)
         if pname in ('sign-flip', 'drop-shell'):
             # the finer-grained entry points on one element
             z = next((z for z in base['elements'] if z in b['elements'] and base['elements'][z] != b['elements'][z]), None)
@@ -252,6 +254,56 @@ def pairs_for(ctx, base, label, rng):
             ctx.violation('curate.diff_basis_dict', 'result', 'diff is not precisely the left shells that no right operand contains', replay)
 
 
+def diff_many(ctx, base, label, rng):
+    """diff with several right operands: each holds a part of the shells of the base, together all of them"""
+    from basis_set_exchange import curate
+    left = copy.deepcopy(base)
+    extra = {}
+    for z, el in left['elements'].items():
+        if 'electron_shells' in el and rng.random() < 0.5:
+            sh = gen.gen_block(rng, rng.randint(0, 3), 2, 1, 0, 'gto')
+            sh['function_type'] = gen.ftype_for(sh['angular_momentum'][0])
+            el['electron_shells'].insert(rng.randint(0, len(el['electron_shells'])), sh)
+            extra[z] = [sh]
+    nright = rng.randint(2, 3)
+    rights = [copy.deepcopy(base) for _ in range(nright)]
+    for z, el in base['elements'].items():
+        if 'electron_shells' not in el:
+            continue
+        owner = [rng.randrange(nright) for _ in el['electron_shells']]
+        for k, rb in enumerate(rights):
+            keep = [copy.deepcopy(sh) for sh, o in zip(el['electron_shells'], owner) if o == k]
+            if keep:
+                rb['elements'][z]['electron_shells'] = keep
+            elif rng.random() < 0.5:
+                del rb['elements'][z]
+            else:
+                rb['elements'][z]['electron_shells'] = []
+    for rb in rights:
+        p_renotate(rb, rng)
+    r = impl.call(curate.diff_basis_dict, [left], rights)
+    ctx.case((label, 'diff-many'), True, 'diff:%d-right-operands' % nright)
+    replay = {'kind': 'diff-many', 'label': label, 'left': left if len(str(left)) < 12000 else None,
+              'rights': rights if len(str(rights)) < 24000 else None}
+    if ctx.model is not None and len(str(left)) < 300000:
+        def shells_only(bb):
+            return {z: ({'electron_shells': el['electron_shells']} if 'electron_shells' in el else {}) for z, el in with_cidx(bb).items()}
+        m = ctx.model.call('diff_basis_dict', [shells_only(left)], [shells_only(rb) for rb in rights])
+        got = r
+        if r[0] == 'ok':
+            got = ('ok', [{z: [dict(s) for s in el['electron_shells']] for z, el in d['elements'].items()} for d in r[1]])
+        if m[0] == 'ok':
+            m = ('ok', [{z: [{k: v for k, v in s.items()} for s in shs] for z, shs in d.items() if shs is not None} for d in m[1]])
+        ctx.compare('diff_basis_dict', got, m, replay)
+    if r[0] != 'ok':
+        ctx.violation('curate.diff_basis_dict', 'raises:' + r[1], 'diff_basis_dict with %d right operands raises %s' % (nright, r[1]), replay)
+    else:
+        got = {z: el['electron_shells'] for z, el in r[1][0]['elements'].items()}
+        if got != extra:
+            ctx.violation('curate.diff_basis_dict', 'result:many-right', 'with %d right operands the diff is not precisely the left shells that no right operand contains '
+                          '(elements with a remainder: %s, expected %s)' % (nright, sorted(got), sorted(extra)), replay)
+
+
 def work_store(ctx, item):
     name, version = item
     r = store.get_basis(name, version)
@@ -261,6 +313,7 @@ def work_store(ctx, item):
     rng = random.Random('%s/%s/%d' % (name, version, ctx.seed // 1000))
     b = store.restrict(r[1], rng, 200 if ctx.thorough() else 3)
     pairs_for(ctx, b, '%s/%s' % (name, version), rng)
+    diff_many(ctx, b, '%s/%s' % (name, version), rng)
     ctx.sample({'store': '%s/%s' % (name, version), 'perturbations': [p[0] for p in PERTURBATIONS]})
 
 
@@ -268,6 +321,7 @@ def work_generated(ctx, seed):
     rng = random.Random(seed)
     b = gen.gen_basis(rng, ecp_prob=0.5)
     pairs_for(ctx, b, 'gen:%d' % seed, rng)
+    diff_many(ctx, b, 'gen:%d' % seed, rng)
 
 
 def run(ctx):
